@@ -1,4 +1,5 @@
-(* C03 (c) -- whole evaluations interleaved: an executable prediction, NOT a theorem.
+(* C03 (c) -- whole evaluations interleaved: the coroutine machine.  Executable (the harness compares it with the real iterators
+   on every enumerated schedule) AND the object of the isolation theorem of Eql/DomainCacheSchedProofs.v.
    An evaluate() iterator of a conjunctive query is a coroutine whose only shared state is the domain cache of its
    variables; it is written here in continuation-passing style as a tree [co] of domain pulls, so that it can be
    suspended at a yield and resumed after other iterators ran.  The machine is generic in the handle model
@@ -92,11 +93,15 @@ Section Machine.
 
   (* state kept on the selector node of a query object: coverage memory, _conclusion_ set *)
   Definition nstate := (list (list Z) * list Z)%type.
-  Record isys := { caches : list dstate; handles : list (nat * H); its : list co;
-                   objs : list nat;            (* iterator -> query object it evaluates *)
-                   nodes : list nstate }.      (* per query object *)
+  (* an evaluate() iterator: its suspended continuation, the domain iterators (handles) IT created -- generator objects
+     local to the evaluation, numbered in creation order -- and the query object it evaluates *)
+  Record iter := { i_co : co; i_hs : list (nat * H); i_obj : nat }.
+  (* shared between the iterators: the domain cache of every variable, the selector node of every query object *)
+  Record isys := { caches : list dstate; iters : list iter; nodes : list nstate }.
 
   Definition add_tag (t : Z) (p : list Z) : list Z := if mem t p then p else p ++ [t].
+  Definition conclude_node (key : list Z) (nd : nstate) : nstate :=
+    if memkey key (fst nd) then nd else (fst nd ++ [key], add_tag (hd 0 key) (snd nd)).
 
   Fixpoint drive (o : nat) (c : co) (cs : list dstate) (hs : list (nat * H)) (ns : list nstate)
     : ires * co * list dstate * list (nat * H) * list nstate :=
@@ -107,26 +112,23 @@ Section Machine.
         | None => (IOut, CEnd, cs, hs, ns)
         | Some (x, st) =>
             match nth_error cs x with
-            | None => (IOut, CEnd, cs, hs, ns)
+            | None => drive o (k OStop) cs hs ns              (* a variable outside the world has no values (as Reeval.enum) *)
             | Some d => let '(out_, d', st') := hstp d st in drive o (k out_) (upd x d' cs) (upd h (x, st') hs) ns
             end
         end
     | CYield r k => (IRow r, k, cs, hs, ns)
     | CForget k => match nth_error ns o with
                    | None => (IOut, CEnd, cs, hs, ns)
-                   | Some (_, pend) => drive o k cs hs (upd o ([], pend) ns)
+                   | Some nd => drive o k cs hs (upd o ([], snd nd) ns)
                    end
     | CConclude key k =>
         match nth_error ns o with
         | None => (IOut, CEnd, cs, hs, ns)
-        | Some (seen, pend) =>
-            let '(seen', pend') := if memkey key seen then (seen, pend)
-                                   else (seen ++ [key], add_tag (hd 0 key) pend) in
-            drive o (k pend') cs hs (upd o (seen', pend') ns)
+        | Some nd => let nd' := conclude_node key nd in drive o (k (snd nd')) cs hs (upd o nd' ns)
         end
     | CConclClear k => match nth_error ns o with
                        | None => (IOut, CEnd, cs, hs, ns)
-                       | Some (seen, _) => drive o k cs hs (upd o (seen, []) ns)
+                       | Some nd => drive o k cs hs (upd o (fst nd, []) ns)
                        end
     | CEnd => (IStop, CEnd, cs, hs, ns)
     | CErr => (IErr, CEnd, cs, hs, ns)
@@ -135,14 +137,17 @@ Section Machine.
 
   Definition istep (op_ : iop) (S : isys) : ires * isys :=
     match op_ with
-    | INext i => match nth_error (its S) i, nth_error (objs S) i with
-                 | Some c, Some o =>
-                     let '(r, c', cs, hs, ns) := drive o c (caches S) (handles S) (nodes S) in
-                     (r, {| caches := cs; handles := hs; its := upd i c' (its S); objs := objs S; nodes := ns |})
-                 | _, _ => (IOut, S)
+    | INext i => match nth_error (iters S) i with
+                 | Some it =>
+                     let '(r, c', cs, hs, ns) := drive (i_obj it) (i_co it) (caches S) (i_hs it) (nodes S) in
+                     (r, {| caches := cs; iters := upd i {| i_co := c'; i_hs := hs; i_obj := i_obj it |} (iters S); nodes := ns |})
+                 | None => (IOut, S)
                  end
-    | IClose i => (IClosed, {| caches := caches S; handles := handles S; its := upd i CEnd (its S);
-                               objs := objs S; nodes := nodes S |})
+    | IClose i => match nth_error (iters S) i with
+                  | Some it => (IClosed, {| caches := caches S; nodes := nodes S;
+                                            iters := upd i {| i_co := CEnd; i_hs := i_hs it; i_obj := i_obj it |} (iters S) |})
+                  | None => (IClosed, S)
+                  end
     end.
 
   Fixpoint ilog (ops : list iop) (S : isys) : list ires :=
@@ -150,15 +155,43 @@ Section Machine.
     | [] => []
     | o :: r => let '(x, S') := istep o S in x :: ilog r S'
     end.
+
+  (* the same run, recording per iterator what it delivered: rows in order, whether it was closed, whether it ended by itself *)
+  Record itrace := { t_rows : list (list Z); t_closed : bool; t_stopped : bool; t_failed : bool }.
+  Definition record (op_ : iop) (r : ires) (T : list itrace) : list itrace :=
+    match op_ with
+    | INext i => match nth_error T i with
+                 | None => T
+                 | Some t =>
+                     upd i (match r with
+                            | IRow row => {| t_rows := t_rows t ++ [row]; t_closed := t_closed t; t_stopped := t_stopped t; t_failed := t_failed t |}
+                            | IStop => {| t_rows := t_rows t; t_closed := t_closed t; t_stopped := t_stopped t || negb (t_closed t); t_failed := t_failed t |}
+                            | IErr | IOut => {| t_rows := t_rows t; t_closed := t_closed t; t_stopped := t_stopped t; t_failed := true |}
+                            | IClosed => t
+                            end) T
+                 end
+    | IClose i => match nth_error T i with
+                  | None => T
+                  | Some t => upd i {| t_rows := t_rows t; t_closed := true; t_stopped := t_stopped t; t_failed := t_failed t |} T
+                  end
+    end.
+  Fixpoint irun (ops : list iop) (S : isys) (T : list itrace) : isys * list itrace :=
+    match ops with
+    | [] => (S, T)
+    | o :: r => let '(x, S') := istep o S in irun r S' (record o x T)
+    end.
 End Machine.
 
 Definition maxlen (W : world) : nat := fold_right (fun w m => Nat.max (length w) m) O W.
 
 (* [qobjs]: the query objects; [itobj]: which object every iterator evaluates (iterators of one object share its node state) *)
+Definition q_none : query := {| q_sel := []; q_conds := []; q_rule := None |}.
+Definition fuel_for (W : world) : nat := S (S (S (2 * maxlen W))).
 Definition isys1 {H} (W : world) (A : attrs) (qobjs : list query) (itobj : list nat) : isys H :=
-  {| caches := map (fun w => {| cache := []; src := w |}) W; handles := [];
-     its := map (fun o => compile A (S (S (S (2 * maxlen W)))) (nth o qobjs {| q_sel := []; q_conds := []; q_rule := None |})) itobj;
-     objs := itobj; nodes := map (fun _ => ([], [])) qobjs |}.
+  {| caches := map (fun w => {| cache := []; src := w |}) W;
+     iters := map (fun o => {| i_co := compile A (fuel_for W) (nth o qobjs q_none); i_hs := []; i_obj := o |}) itobj;
+     nodes := map (fun _ => ([], [])) qobjs |}.
+Definition trace0 : itrace := {| t_rows := []; t_closed := false; t_stopped := false; t_failed := false |}.
 (* rule-free queries keep nothing on their nodes: every iterator may as well be its own object *)
 Definition isys0 {H} (W : world) (A : attrs) (qs : list query) : isys H := isys1 W A qs (seq 0 (length qs)).
 
@@ -198,7 +231,7 @@ Definition rsched_case := (world * attrs * list query * list nat * list iop)%typ
 Definition rsched_model (c : rsched_case) : sx := let '(W, A, qo, io, ops) := c in sx_log (model_rsched W A qo io ops).
 Definition rsched_spec (c : rsched_case) : sx :=
   let '(W, A, qo, io, ops) := c in
-  sx_log (spec_sched (map dedup W) A (map (fun o => nth o qo {| q_sel := []; q_conds := []; q_rule := None |}) io) ops).
+  sx_log (spec_sched (map dedup W) A (map (fun o => nth o qo q_none) io) ops).
 (* the model may say "tag 0 or 1" (SZ (-5)) where two conclusions are applied in set-iteration order *)
 Fixpoint sx_wmatch (m i : sx) {struct m} : bool :=
   match m, i with
